@@ -62,7 +62,9 @@ Rejected(c) == c.obs.ctor = TypeErr \/ LateReject(c)
 (* here (other properties own those).  A crash (no diagnostic) while an      *)
 (* accepted program is compiled is not an acceptance.                        *)
 JudgeWith(c, inf, strict) ==
-  IF ~inf.ok
+  IF inf.outside
+  THEN [ok |-> TRUE, why |-> "a construct outside the typed fragment: no demand"]
+  ELSE IF ~inf.ok
   THEN IF Rejected(c) THEN [ok |-> TRUE, why |-> "ill typed, rejected with a type error"]
        ELSE [ok |-> FALSE, why |-> "ill-typed program was not rejected with a type error"]
   ELSE IF ~inf.det
@@ -95,7 +97,7 @@ Judge(c) ==
              ELSE IF ~inf.ok THEN "spec finds a clash"
              ELSE IF ~inf.det THEN "undetermined"
              ELSE "differs"
-  IN [id |-> c.id, ok |-> j.ok, why |-> j.why, wt |-> inf.ok, det |-> inf.det,
+  IN [id |-> c.id, ok |-> j.ok, why |-> j.why, wt |-> inf.ok, det |-> inf.det, outside |-> inf.outside,
       clash |-> inf.bad,
       dev |-> IF explains # {} THEN explains ELSE IF all THEN TypingDeviations ELSE {},
       sigdiff |-> IF inf.ok /\ inf.det /\ c.obs.ctor = "ok" THEN SigDiff(c, inf) ELSE {},
